@@ -151,6 +151,9 @@ enum What {
     /// the Minecraft fallback chains against a server on which only some variants answer: the chain must stop with the first
     /// step that is answered (nothing is sent after it)
     McChain { entry: u8, bits: u8 },
+    /// Valve: 0..4 challenges in a row per request: every request carries exactly the challenge issued last, nothing of the
+    /// earlier ones
+    ValveChallengeRows,
 }
 
 #[derive(Clone)]
@@ -221,6 +224,7 @@ fn build(tier: Tier) -> Vec<Case> {
     }
     v.push(Case { label: "gamespy3 challenge texts: i32 extremes and +-2^k".into(), what: What::Gs3Challenges { lo: 0, hi: 0, special: true } });
     v.push(Case { label: "java handshake: hostnames x protocol versions x ports".into(), what: What::JavaHandshake });
+    v.push(Case { label: "valve: 0..4 challenges in a row on each of info / players / rules".into(), what: What::ValveChallengeRows });
     v
 }
 
@@ -303,7 +307,9 @@ impl Prop for C09 {
          (c) GameSpy 3 challenge texts: every integer in [-4096, 4096], i32 extremes and +-2^k: request carries the i32 big-endian, \
          nothing for 0. (d) Java handshake: hostnames {'', 'a', 255 bytes, non-ASCII} x protocol versions over the i32 alphabet x \
          ports over the u16 alphabet, plus protocol versions at every 7-bit VarInt group boundary +-1 and every host-name length 0..=300: \
-         varint framing, host name, big-endian port, next state 1, status request, ping"
+         varint framing, host name, big-endian port, next state 1, status request, ping. (e) 0..4 Valve challenges in a row on each request x 2 challenge lists x 2 engines. \
+         (f) the Minecraft fallback chains (5 entry points) against servers on which only some variants answer: the chain stops at the answering step. \
+         (g) every protocol entry point in ONE fresh process in list order and back (and the reverse): same exchange, same answer the second time"
             .into()
     }
     fn assumptions(&self) -> Vec<String> {
@@ -464,6 +470,59 @@ impl Prop for C09 {
                     ctx.violation(format!("mc-chain-fails:{}", family_tag(fam)), &[], format!("{}: a variant answers but the query fails", case.label), x.outcome.describe_json(), "Ok(..)", render_log(&x.log));
                 }
                 compare(ctx, &x, &exp, &format!("{}:chain-stops-at-the-answering-step", family_tag(fam)), &case.label);
+            }
+            What::ValveChallengeRows => {
+                let lists: [Vec<[u8; 4]>; 2] = [
+                    vec![[0x4b, 0xa1, 0xd5, 0x22], [0x0a, 0x00, 0xff, 0x5c], [0x01, 0x02, 0x03, 0x04], [0xff, 0xff, 0xff, 0xff], [0x00, 0x00, 0x00, 0x00]],
+                    vec![[0x11, 0x22, 0x33, 0x44], [0x11, 0x22, 0x33, 0x44], [0x54, 0x53, 0x6f, 0x75]],
+                ];
+                for e in [EngineCfg::App440, EngineCfg::GoldFalse] {
+                    for (li, list) in lists.iter().enumerate() {
+                        for r0 in 0 ..= 4usize {
+                            for r1 in 0 ..= 4usize {
+                                for r2 in 0 ..= 4usize {
+                                    let s = valve_seed(e);
+                                    let t = rv::Transport { rounds: [r0, r1, r2], challenges: list.clone(), ..Default::default() };
+                                    let gs = valve::GatheringSettings { players: GatherToggle::Enforce, rules: GatherToggle::Enforce, check_app_id: false };
+                                    let x = run_query(Box::new(rv::ValveServer::new(s, t)), Box::new(Faithful), Chooser::new(&[]), || {
+                                        valve::query(&addr(), e.engine(), Some(gs), None).map(|r| to_json(&r))
+                                    });
+                                    ctx.account(&x, 0);
+                                    ctx.distinct_key(&(e, li, r0, r1, r2));
+                                    let mut exp: Vec<Vec<u8>> = Vec::new();
+                                    let mut next = 0usize;
+                                    for (k, rounds) in [(0x54u8, r0), (0x55, r1), (0x56, r2)] {
+                                        let mut first = vec![0xFF, 0xFF, 0xFF, 0xFF, k];
+                                        first.extend_from_slice(if k == 0x54 { rv::INFO_PAYLOAD } else { &[0xFF; 4] });
+                                        exp.push(first);
+                                        for _ in 0 .. rounds {
+                                            let c = list[next % list.len()];
+                                            next += 1;
+                                            let mut again = vec![0xFF, 0xFF, 0xFF, 0xFF, k];
+                                            if k == 0x54 {
+                                                again.extend_from_slice(rv::INFO_PAYLOAD);
+                                            }
+                                            again.extend_from_slice(&c);
+                                            exp.push(again);
+                                        }
+                                    }
+                                    let got: Vec<Vec<u8>> = crate::vnet::all_sends(&x.log).iter().map(|s| s.1.to_vec()).collect();
+                                    if got != exp || x.outcome.ok().is_none() {
+                                        ctx.violation(
+                                            "valve-challenges-in-a-row",
+                                            &[li as u32, r0 as u32, r1 as u32, r2 as u32],
+                                            format!("{e:?}: {r0}/{r1}/{r2} challenges in a row on info/players/rules (challenge list {li}): the requests differ from the protocol's"),
+                                            format!("{} ; outcome {}", got.iter().map(|g| crate::vnet::hex(g)).collect::<Vec<_>>().join(", "), x.outcome.class()),
+                                            exp.iter().map(|g| crate::vnet::hex(g)).collect::<Vec<_>>().join(", "),
+                                            render_log(&x.log),
+                                        );
+                                    }
+                                }
+                            }
+                        }
+                    }
+                }
+                ctx.sample(serde_json::json!({"case": case.label, "combinations": 2 * 2 * 125}));
             }
             What::ValveChallenges { stratum, lo, hi } => {
                 for i in lo .. hi {
